@@ -31,6 +31,18 @@ CLAIMED = {
          "For the element-wise operations the complete grid len(second) 0..8 x len(top) 0..8 x offsets -10..10 plus extreme offsets is enumerated with random element values; all other C09 vector instructions run on random states with boundary elements and indices around the vector length. Whole snapshots are compared with the README/comment semantics per instruction name, so a mis-registered name fails under its own name.",
          "Trusted: vector part of harness/src/refmodel2.rs. Size operands are kept <= 4096 (C15 covers magnitudes). Float aggregates compared with 1e-5 relative tolerance; listed unspecified corners not value-compared.",
          "DESIGN.md section 4, C09"),
+ "C02": ("differential PBT: PushInterpreter::run against an independent accounting of repeated step() calls over generated programs, step limits and growth caps",
+         "Generated RAND-free programs (general, flat unpacking, EXEC.Y loops, DUP/FLUSH mixes) are executed by run() and by our own copy-then-step loop; the outcome must be admissible for the measured completion step e and first over-cap growth step g, the converse implications must hold and the final state must equal the single-stepped state. Limits -1..L and caps {0,1,2,3,5,10,500} with boundary classes (e = limit-1/limit/limit+1, growth = cap / cap+1) measured in the evidence. One wall-clock sub-check for TimeLimitExceeded (slow => inconclusive).",
+         "Trusted: the statement-derived oracle in harness/src/props/c02.rs and PushInterpreter::step itself as the unit of the differential (step semantics are C06/C07's subject). Where the statement allows limit or limit+1 executed steps both are accepted.",
+         "DESIGN.md section 4, C02"),
+ "C03": ("PBT of the parser: arbitrary / token-soup / mutated strings for totality and frame, class-generated token trees for structure",
+         "Totality and frame on arbitrary UTF-8, token soup over parens / vector prefixes / multi-byte scalars and single-edit mutations of printed programs, parsed onto empty and populated states; structure on token trees whose leaves are generated by lexical class (ints, floats incl. inf/NaN/out-of-i32, booleans, every registered instruction, names, well-formed and malformed vector literals) rendered with random Unicode whitespace and compared with the EXEC stack read back through the public API.",
+         "Trusted: Rust's str::parse::<i32>/<f32> as the definition of integer/float tokens; the expected tree is known by construction. Empty vector literals, unclosed prefix tokens and the tree built from unbalanced input are unspecified. Nesting depth bounded (deep-nesting is a separate probe).",
+         "DESIGN.md section 4, C03"),
+ "C11": ("round-trip PBT: three printers -> parser, on generated trees and on pushr's own random code generator output",
+         "Generated stacks of item trees (lists incl. empty, pool ints, booleans, parser-producible names, every registered instruction; separately with floats incl. non-finite and > 3 decimals) are printed by Item::to_string, PushStack::to_string and CODE.PRINT and parsed back: structural equality (own walker and Item::equals) when float-free, print-parse-print fixpoint and shape equality with floats; plus every tree emitted by random_code_with_size(1..200).",
+         "Trusted: the parser as inverse is the subject, nothing else; an independent printer (refmodel::print_item) cross-checks the print format. Vector / INDEX / GRAPH literals and names with blanks are outside the property's language.",
+         "DESIGN.md section 4, C11"),
 }
 PENDING_REASON = "check not built yet in this round (work in progress, see DESIGN.md section 4 for the planned check)"
 
